@@ -442,8 +442,11 @@ def run(ctx):
                         const_dims=CONST_DIMS, seed_tag=66)
     # vector-level classes reaching every branch, and the float geometry classes with their oracles
     for config in ("stable", "nightly") + (("debug",) if thorough else ()):
-        run_ints(ctx, facts, config, lens_fn, INT_CLASSES, places)
-        run_floats(ctx, facts, config, lens_fn, FLOAT_CLASSES, places)
+        # a byte-misaligned placement ("3") is not a valid &[T] for multi-byte T: the debug build's own precondition
+        # check of slice::from_raw_parts aborts inside the HARNESS; debug runs use the two guard-page placements
+        pl = ("R", "L") if config == "debug" else places
+        run_ints(ctx, facts, config, lens_fn, INT_CLASSES, pl)
+        run_floats(ctx, facts, config, lens_fn, FLOAT_CLASSES, pl)
     # the safe API (cfavml::*_xany_cosine / *_xconst_cosine) under dispatch masks: every back end the host can reach
     facts = ctx.translate(steps=("tables", "dispatch"))
     entries = [(i, s_) for i, s_ in enumerate(facts.get("safe_entries", [])) if "_cosine" in s_["any"]]
